@@ -1,0 +1,14 @@
+//go:build verif
+
+package wmark
+
+import "time"
+
+// Accessor for the verification harness (/verif, property C11). Compiled only
+// with -tags verif.
+
+// VerifNewWatermarker builds a Watermarker with the given allowed lateness
+// (the field is unexported and never set by production code).
+func VerifNewWatermarker(allowedLateness time.Duration) *Watermarker {
+	return &Watermarker{allowedLateness: allowedLateness}
+}
